@@ -42,6 +42,9 @@ def run(chk):
     X = ('var', 'x'); W = ('wild', 'w')
     ext = [('forall', 'x', 'd', ('jump', 'x', ('AX', X))), ('exists', 'x', 'd', ('EF', X)), ('bind', 'x', 'd', ('EX', ('or', X, W))), ('forall', 'x', 'e', ('or', ('EF', X), W)),
            ('and', ('forall', 'x', 'd', ('EX', X)), ('not', ('exists', 'x', 'e', ('AX', X)))), ('EU', W, ('forall', 'x', 'd', ('jump', 'x', P0)))]
+    # domains that project to ONE state and are present for some colours only
+    ext += [('exists', 'x', 's1', ('jump', 'x', ('EF', P0))), ('forall', 'x', 's1', ('jump', 'x', ('AX', P1))), ('bind', 'x', 's1', ('EX', X)), ('exists', 'x', 's1', ('EF', X)),
+            ('and', ('exists', 'x', 's1', ('jump', 'x', ('EX', X))), ('not', ('forall', 'x', 's0', ('jump', 'x', P0))))]
     # operands that partition the state space along one variable (no transition of that variable ends inside the left operand)
     ext += [(b, ('not', P0), P0) for b in ('EU', 'AU', 'EW', 'AW')] + [('EU', P1, ('not', P1)), ('bind', 'x', None, ('EX', ('EU', ('not', X), X))), ('EF', ('and', P0, P1)), ('AG', ('or', ('not', P0), P1))]
     forms = ext + core[::1 if thorough else 2] + rnd
